@@ -22,7 +22,7 @@ const prop = "C10"
 
 // Op of a history over one environment.
 type Op struct {
-	Kind   string // start | stop | start-taskfail | start-hookfail | stop-hookfail | taskdeath | destroy (forced) |
+	Kind   string // start | stop | stop-taskfail (a task refuses STOP) | start-taskfail | start-hookfail | stop-hookfail | taskdeath | destroy (forced) |
 	//               destroy-graceful (allowInRunningState: the server stops the run first) | destroy-stopfail (that STOP fails: critical hook at Moment before/leave, or Moment task: a task refuses STOP)
 	Moment string // for *-hookfail: before | leave | enter | after
 }
@@ -74,6 +74,12 @@ func run(c Case) (res vh.Result) {
 			k++
 			fmt.Fprintf(&sb, "  - name: p%d\n    call:\n      func: verifprobe.P(\"%s/%+d\")\n      trigger: %s%+d\n      timeout: 5s\n      critical: false\n", k, m, wgt, m, wgt)
 		}
+	}
+	// calls started before the run number / timestamps are set and collected after: they must not drag the hooks of the
+	// weight at which they are collected in front of that work
+	for _, m := range []string{"before_START_ACTIVITY", "before_STOP_ACTIVITY"} {
+		k++
+		fmt.Fprintf(&sb, "  - name: s%d\n    call:\n      func: verifprobe.P(\"straddle:%s\")\n      trigger: %s-2\n      await: %s+1\n      timeout: 5s\n      critical: false\n", k, m, m, m)
 	}
 	// critical probes that fail on demand
 	critAt := map[string]string{"start/before": "before_START_ACTIVITY", "start/leave": "leave_CONFIGURED", "start/enter": "enter_RUNNING", "start/after": "after_START_ACTIVITY",
@@ -202,7 +208,7 @@ func run(c Case) (res vh.Result) {
 				errEnd = true
 				r.finalVars = userVars()
 			}
-		case "stop", "stop-hookfail":
+		case "stop", "stop-hookfail", "stop-taskfail":
 			if state != "RUNNING" {
 				continue
 			}
@@ -210,9 +216,18 @@ func run(c Case) (res vh.Result) {
 				setFail("stop/"+op.Moment, false)
 				hookInRun = true
 			}
+			if op.Kind == "stop-taskfail" {
+				mu.Lock()
+				failStop = true
+				mu.Unlock()
+				hookInRun = true
+			}
 			w.Note("op %d %s %s", oi, op.Kind, op.Moment)
 			rep, err := w.Control(id, pb.ControlEnvironmentRequest_STOP_ACTIVITY, 60*time.Second)
 			setFail("", false)
+			mu.Lock()
+			failStop = false
+			mu.Unlock()
 			steps = append(steps, fmt.Sprintf("op %d %s %s -> state=%s err=%v", oi, op.Kind, op.Moment, rep.GetState(), err))
 			r := runs[len(runs)-1]
 			r.endSeq = w.Note("end of op %d", oi)
@@ -225,6 +240,13 @@ func run(c Case) (res vh.Result) {
 			if op.Kind == "stop" {
 				r.endedBy, r.stopDone = "stop", true
 				state = "CONFIGURED"
+			} else if op.Kind == "stop-taskfail" {
+				r.endedBy = "stop-taskfail"
+				st, _ := w.WaitState(id, 5*time.Second, "ERROR")
+				state = st
+				errEnd = true
+				// the run goes on until the GO_ERROR that follows is over: hooks of that GO_ERROR still belong to it
+				r.endSeq = w.Note("end of op %d (after GO_ERROR)", oi)
 			} else {
 				r.endedBy = "stop-hookfail-" + op.Moment
 				r.stopDone = op.Moment == "enter" || op.Moment == "after" // the stop itself happened, its after_STOP_ACTIVITY moment was passed
@@ -334,7 +356,7 @@ func run(c Case) (res vh.Result) {
 	// ---- sightings of this environment in world order
 	var sight []sighting
 	for _, p := range w.Probes() {
-		if p.Env != id || p.Phase != "start" || strings.HasPrefix(p.Arg, "crit:") {
+		if p.Env != id || p.Phase != "start" || strings.HasPrefix(p.Arg, "crit:") || strings.HasPrefix(p.Arg, "straddle:") {
 			continue
 		}
 		s := sighting{seq: p.Seq, arg: p.Arg, run: p.Vars["run_number"]}
@@ -474,7 +496,7 @@ func gen(t *rapid.T) Case {
 		if !running {
 			op.Kind = rapid.SampledFrom([]string{"start", "start", "start", "start", "start", "start-taskfail", "start-hookfail", "destroy"}).Draw(t, "kind")
 		} else {
-			op.Kind = rapid.SampledFrom([]string{"stop", "stop", "stop", "stop", "stop-hookfail", "stop-hookfail", "taskdeath", "destroy", "destroy-graceful", "destroy-stopfail"}).Draw(t, "kind")
+			op.Kind = rapid.SampledFrom([]string{"stop", "stop", "stop", "stop", "stop-hookfail", "stop-hookfail", "stop-taskfail", "taskdeath", "destroy", "destroy-graceful", "destroy-stopfail"}).Draw(t, "kind")
 		}
 		if op.Kind == "destroy-stopfail" {
 			op.Moment = rapid.SampledFrom([]string{"before", "leave", "task"}).Draw(t, "stopFailure")
@@ -508,6 +530,7 @@ func TestFixed(t *testing.T) {
 	vh.Fixed(t, prop, "teardown-while-running", Case{NTasks: 1, Ops: []Op{{Kind: "start"}, {Kind: "stop"}, {Kind: "start"}, {Kind: "destroy"}}}, vh.Confirmed(run))
 	vh.Fixed(t, prop, "task-death-ends-run", Case{NTasks: 2, Ops: []Op{{Kind: "start"}, {Kind: "taskdeath"}}}, vh.Confirmed(run))
 	vh.Fixed(t, prop, "failed-start", Case{NTasks: 1, Ops: []Op{{Kind: "start"}, {Kind: "stop"}, {Kind: "start-taskfail"}}}, vh.Confirmed(run))
+	vh.Fixed(t, prop, "stop-fails-in-the-tasks", Case{NTasks: 2, Ops: []Op{{Kind: "start"}, {Kind: "stop"}, {Kind: "start"}, {Kind: "stop-taskfail"}}}, vh.Confirmed(run))
 	vh.Fixed(t, prop, "graceful-destroy-while-running", Case{NTasks: 1, Ops: []Op{{Kind: "start"}, {Kind: "stop"}, {Kind: "start"}, {Kind: "destroy-graceful"}}}, vh.Confirmed(run))
 	for _, m := range []string{"before", "leave", "task"} {
 		vh.Fixed(t, prop, "graceful-destroy-whose-stop-fails-"+m, Case{NTasks: 2, Ops: []Op{{Kind: "start"}, {Kind: "destroy-stopfail", Moment: m}}}, vh.Confirmed(run))
